@@ -1,4 +1,5 @@
 import MudProof.Properties.C07
+import MudProof.StepThm
 open Mud.C07
 #print axioms verlet_reversible
 #print axioms verlet_run_reversible
@@ -11,3 +12,5 @@ open Mud.C07
 #print axioms exp_step_reversible
 #print axioms full_step_reversible
 #print axioms full_run_reversible
+#print axioms Mud.StepThm.shStep_common
+#print axioms Mud.StepThm.shStep_event
